@@ -614,13 +614,53 @@ func (s *c11Station) params() {
 			if a != nil {
 				copyA = proto.Clone(a).(*anypb.Any)
 			}
-			res := vlibc11.Guard(func() { _ = transports.UnmarshalAnypbTo(copyA, dst) })
+			var uerr error
+			res := vlibc11.Guard(func() { uerr = transports.UnmarshalAnypbTo(copyA, dst) })
 			s.out.Checked()
 			if res.Bad() {
 				s.fail("anypb-nourl", res, fmt.Sprintf("any|%T|%s", dst, vlib.Hex(vlibc11.Marshal(a))))
+			} else if line, ok := c11AnyLine(a, dst); ok {
+				// the same call against the Lean model of UnmarshalAnypbTo (codec|any): URL restored or rejected, value decodable or not
+				ans := "ok set"
+				switch {
+				case a == nil:
+					ans = "ok nil"
+				case uerr != nil && (strings.Contains(uerr.Error(), "error reading src type") || strings.Contains(uerr.Error(), "incorrect non-empty TypeUrl")):
+					ans = "err wrongType"
+				case uerr != nil:
+					ans = "err unmarshal"
+				}
+				s.out.Case(line, ans, ans == "ok set")
+				s.out.Count("any:" + strings.ReplaceAll(ans, " ", "-"))
 			}
 		}
 	}
+}
+
+// c11AnyLine: the `codec|any|src url|value|expected url|value decodable` line of one UnmarshalAnypbTo call; only for
+// URLs that survive the line format (printable ASCII without the separators)
+func c11AnyLine(a *anypb.Any, dst proto.Message) (string, bool) {
+	e, err := anypb.New(dst)
+	if err != nil {
+		return "", false
+	}
+	if a == nil {
+		return fmt.Sprintf("codec|any|NIL|-|%s|1", e.TypeUrl), true
+	}
+	u := a.TypeUrl
+	for i := 0; i < len(u); i++ {
+		if u[i] <= ' ' || u[i] >= 0x7f || u[i] == '|' {
+			return "", false
+		}
+	}
+	if u == "-" || u == "NIL" {
+		return "", false
+	}
+	if u == "" {
+		u = "-"
+	}
+	can := proto.Unmarshal(a.Value, dst.ProtoReflect().New().Interface()) == nil
+	return fmt.Sprintf("codec|any|%s|%s|%s|%s", u, vlib.Hex(a.Value), e.TypeUrl, vlib.B(can)), true
 }
 
 // ---------------------------------------------------------------------------------------------
